@@ -24,8 +24,12 @@ ConstUnion == TDisj(<<TConst("string", VStr("10")), TConst("string", VStr("20"))
 \* a union of string constants that start with a sign (becomes an enum whose member names need sanitising)
 SignUnion  == TDisj(<<TConst("string", VStr("-inf")), TConst("string", VStr("+inf")), TConst("string", VStr("zero"))>>, "", <<>>)
 
+\* enums that mix words and numerals as member names, word first and numeral first (a check of the first member only is not enough)
+MixedEnumW == TEnum(<<Member("auto", VStr("auto"), "string"), Member("5", VStr("5"), "string"), Member("30", VStr("30"), "string")>>)
+MixedEnumN == TEnum(<<Member("0", VStr("0"), "string"), Member("unlimited", VStr("unlimited"), "string"), Member("3", VStr("3"), "string")>>)
+
 Leaves == <<TString, TScalar("int64"), TRef("p", "S"), TRef("p", "E"), AnonEnum, AnonStruct, TRef("p", "U"), IntEnum,
-            NumStrEnum, ConstUnion, TRef("p", "A2"), SignUnion>>
+            NumStrEnum, ConstUnion, TRef("p", "A2"), SignUnion, MixedEnumW, MixedEnumN>>
 
 \* constructors applied to an inner type x (the position under test)
 Ctors == <<"array", "mapval", "mapkey", "field", "optfield", "ornull", "orstring", "orref", "allof">>
